@@ -29,6 +29,8 @@ def histories(tier):
     alphabet += [(o, x) for o in ("rest_dt", "rest_start", "rest_points") for x in ("A", "B")]
     # a session on ONE scenario with the session's start/dt left to be derived: its steps must follow that scenario's own run specs
     alphabet += [("sess_observe", x) for x in ("A", "B", "D")]
+    # F has neither constants nor points of its own, and its manager has no base settings: step settings on it must still end with the session
+    alphabet += [(o, "F") for o in ("step_const", "step_points", "open_step")]
     out = [[a] for a in alphabet]
     out += [[a, b] for a in alphabet for b in alphabet]
     if tier == "thorough":
